@@ -434,6 +434,11 @@ def check_property(prop, tier, seed):
                     shutil.copy(mpath, final)
                     if os.path.basename(mpath).startswith("tmp-min-"):
                         os.remove(mpath)
+                    # the replay file names the build flavour and the property: `check.py --replay` needs both
+                    rpj = json.load(open(final))
+                    rpj["flavour"] = job.flavour
+                    rpj["property"] = vp
+                    json.dump(rpj, open(final, "w"), indent=0)
                 except Exception:
                     final = path
                 out_lines.append("VIOLATION property=%s replay=%s" % (vp, final))
